@@ -1,7 +1,7 @@
 ---------------------------- MODULE RepCache_Trace ----------------------------
 (* (R)/(V) for C15: one trace = one VoD root (a private copy per driver worker) on which TLC-generated behaviours of
    RepCache are replayed with real livesim2 server instances (harness/drive/c15). Events:
-     ref    {asset, adm, reps, listed, cls}        answers of the scanning server (no metadata root) of this VoD root;
+     ref    {asset, adm, open, reps, listed, cls}       answers of the scanning server (no metadata root) of this VoD root;
                                                    adm: admissible by construction of the asset; reps: "<asset>/<rep>" of
                                                    every Representation of every MPD of the asset
      hdr    {beh, root, map, desc}                 a behaviour starts: every metadata file has been deleted
@@ -38,8 +38,13 @@ Init == /\ l = 1 /\ ref = Empty /\ file = Empty /\ root = "disabled" /\ write = 
 FsOf(a) == [r \in ToSet(ref[a].reps) |-> file[r]]
 
 \* the decision for one asset of one started server
-Judge(asset, rt, wr, cls, listed, refcls, reflisted, adm, fs, diff) ==
-   LET oc == Outcome(cls, listed, refcls, reflisted)
+\* open = TRUE: neither the property text nor the documentation decides whether the asset is served (video and audio of
+\* clearly different total duration): it is judged like an admissible asset whose "Scan" is "exactly what the scanning
+\* server does with it" - served identically, or left out if the scanning server leaves it out
+Judge(asset, rt, wr, cls, listed, refcls, reflisted, adm0, open, fs, diff) ==
+   LET adm == adm0 \/ open
+       oc0 == Outcome(cls, listed, refcls, reflisted)
+       oc == IF open /\ listed = reflisted /\ cls = refcls THEN "Scan" ELSE oc0
        al == Allowed(rt, wr, fs, adm) IN
    Clause(ClauseOf(rt, wr, fs, adm), oc \in al,
           [asset |-> asset, outcome |-> oc, allowed |-> al, root |-> rt, write |-> wr, adm |-> adm,
@@ -48,9 +53,9 @@ Judge(asset, rt, wr, cls, listed, refcls, reflisted, adm, fs, diff) ==
 Ref == /\ e.ev = "ref"
        /\ LET fs == [r \in ToSet(e.reps) |-> "absent"] IN
           \* C15.admit holds for the scanning server too ("absent in every mode")
-          /\ Judge(e.asset, "disabled", FALSE, e.cls, e.listed, e.cls, e.listed, e.adm, fs, <<>>)
+          /\ Judge(e.asset, "disabled", FALSE, e.cls, e.listed, e.cls, e.listed, e.adm, e.open, fs, <<>>)
           /\ file' = fs @@ file
-       /\ ref' = (e.asset :> [adm |-> e.adm, reps |-> e.reps, cls |-> e.cls, listed |-> e.listed]) @@ ref
+       /\ ref' = (e.asset :> [adm |-> e.adm, open |-> e.open, reps |-> e.reps, cls |-> e.cls, listed |-> e.listed]) @@ ref
        /\ UNCHANGED <<root, write, wsnap, wvalid>>
 
 Hdr == /\ e.ev = "hdr"
@@ -86,7 +91,7 @@ Start == /\ e.ev = "start"
 Asset == /\ e.ev = "asset"
          /\ e.asset \in DOMAIN ref
          /\ LET r == ref[e.asset] IN
-            Judge(e.asset, root, write, e.cls, e.listed, r.cls, r.listed, r.adm, FsOf(e.asset), e.diff)
+            Judge(e.asset, root, write, e.cls, e.listed, r.cls, r.listed, r.adm, r.open, FsOf(e.asset), e.diff)
          /\ UNCHANGED <<ref, file, root, write, wsnap, wvalid>>
 
 \* C15.contig on what the cache-loaded server serves (the length of the window is not part of the clause)
